@@ -92,7 +92,13 @@ def polynomial_from_attributes(
     )
 
     if coefficients:
-        numpoly.cfrom_attributes(coefficients, poly.values.ravel())
+        try:
+            numpoly.cfrom_attributes(coefficients, poly.values.ravel())
+        except ValueError:
+            # the compiled kernel refuses read-only buffers, e.g. the views
+            # returned by `numpy.diagonal`; retry on writeable copies.
+            coefficients = [numpy.array(coeff) for coeff in coefficients]
+            numpoly.cfrom_attributes(coefficients, poly.values.ravel())
 
     # for key, values in zip(poly.keys, coefficients):
     #    poly.values[key] = values
